@@ -154,6 +154,12 @@ def obs_steps_and_judge(obs, tx_index):
         elif parts[0] == 'supply':
             steps.append({'op': 'supply', 'denom': rj(':'.join(parts[1:]))})
             keys.append(k)
+        elif parts[0] == 'pos':
+            steps.append({'op': 'query', 'contract': 'farm_manager', 'msg': {'positions': {'filter_by': {'identifier': parts[1]}}}})
+            keys.append(k)
+        elif parts[0] == 'farm':
+            steps.append({'op': 'query', 'contract': 'farm_manager', 'msg': {'farms': {'filter_by': {'identifier': parts[1]}}}})
+            keys.append(k)
         elif parts[0] == 'snap':
             steps.append({'op': 'get_weight', 'addr': parts[1], 'epoch': str(parts[-1]), 'denom': rj(':'.join(parts[2:-1]))})
             keys.append(k)
@@ -195,6 +201,23 @@ def obs_steps_and_judge(obs, tx_index):
                         d = _native_denom(':'.join(kk.split(':')[2:]), addrs)
                         if amap.get(d) != v:
                             diffs.append('%s predicted %s native %s' % (kk, v, amap.get(d)))
+            elif k.startswith('pos:') or k.startswith('farm:'):
+                field = k.split(':')[2]
+                nv = None
+                if 'ok' in r:
+                    if k.startswith('pos:') and r['ok'].get('positions'):
+                        pz = r['ok']['positions'][0]
+                        nv = {'amount': int(pz['lp_asset']['amount']), 'open': pz['open'], 'expiring_at': pz['expiring_at'],
+                              'receiver': pz['receiver']}.get(field)
+                    elif k.startswith('farm:') and r['ok'].get('farms'):
+                        fz = r['ok']['farms'][0]
+                        nv = {'funded': int(fz['farm_asset']['amount']), 'claimed': int(fz['claimed_amount']), 'end': fz['preliminary_end_epoch'],
+                              'start': fz['start_epoch'], 'rate': int(fz['emission_rate'])}.get(field)
+                if field == 'receiver' and nv is not None and obs[k] is not None:
+                    if nv != out.get('addrs', {}).get(obs[k]):
+                        diffs.append('%s predicted %s native %s' % (k, obs[k], nv))
+                elif nv != obs[k]:
+                    diffs.append('%s predicted %s native %s' % (k, obs[k], nv))
             else:
                 nv = int(r['ok']) if ('ok' in r and r['ok'] is not None) else None
                 if nv != obs[k]:
